@@ -63,6 +63,9 @@ type c16Case struct {
 	GateFor  time.Duration // 0 = no gate
 	Final    string        // Close | CloseNow
 	FinalGap time.Duration
+	// PeerPings: how many Pings the peer sends when it sees the library's Close frame,
+	// before it sends (or withholds) its own - legal until the peer has closed too.
+	PeerPings int
 }
 
 var c16Causes = []string{"local-close", "local-close", "local-close-1005", "peer-close", "peer-close-empty", "violation", "read-limit", "closeread-data", "netconn-type", "wsjson"}
@@ -117,6 +120,7 @@ func genC16(rt *rapid.T) c16Case {
 	}
 	c.Final = rapid.SampledFrom([]string{"Close", "CloseNow"}).Draw(rt, "final")
 	c.FinalGap = rapid.SampledFrom([]time.Duration{0, time.Second, 12 * time.Second}).Draw(rt, "finalGap")
+	c.PeerPings = rapid.SampledFrom([]int{0, 0, 1, 2}).Draw(rt, "peerPingsAfterClose")
 	return c
 }
 
@@ -145,6 +149,9 @@ func runC16(t fataler, c c16Case) (string, c16Result) {
 		case ref.OpPing:
 			p.send(ref.Frame{Fin: true, Opcode: ref.OpPong, Payload: f.Payload})
 		case ref.OpClose:
+			for i := 0; i < c.PeerPings; i++ {
+				p.send(ref.Frame{Fin: true, Opcode: ref.OpPing, Payload: []byte{'p', byte(i)}})
+			}
 			switch c.Echo {
 			case "immediate":
 				p.send(ref.Frame{Fin: true, Opcode: ref.OpClose, Payload: f.Payload})
@@ -393,7 +400,7 @@ func runC16(t fataler, c c16Case) (string, c16Result) {
 
 func TestC16(t *testing.T) {
 	rec := evid.For("C16")
-	rec.Rule = "rapid-generated schedules in virtual time: 1-4 writers (Write and multi-chunk Writer with pauses between chunks) and 0-2 pingers starting at drawn instants, a close cause {local Close, peer Close frame, protocol violation, read-limit excess, CloseRead + data message, NetConn type mismatch, wsjson decode failure} at a drawn instant, peer echo {immediate, late, never}, optional transport gate holding the library's writes, then the user's final Close or CloseNow; the raw peer records every frame until transport EOF. Non-trivial: a write/ping call was issued at or after the instant the Close frame was written, or a Writer message was open at that instant. distinct = hash(mode, cause, echo, final, gate, per-writer op shapes and timing classes)."
+	rec.Rule = "rapid-generated schedules in virtual time: 1-4 writers (Write and multi-chunk Writer with pauses between chunks) and 0-2 pingers starting at drawn instants, a close cause {local Close, peer Close frame, protocol violation, read-limit excess, CloseRead + data message, NetConn type mismatch, wsjson decode failure} at a drawn instant, peer echo {immediate, late, never} preceded by 0-2 Pings from the peer, optional transport gate holding the library's writes, then the user's final Close or CloseNow; the raw peer records every frame until transport EOF. Non-trivial: a write/ping call was issued at or after the instant the Close frame was written, or a Writer message was open at that instant. distinct = hash(mode, cause, echo, final, gate, per-writer op shapes and timing classes)."
 	rapid.Check(t, func(rt *rapid.T) {
 		c := genC16(rt)
 		var msg string
